@@ -4,10 +4,18 @@
 //
 // The readers run on an exact-size heap copy of the `ret` bytes rtosc_bundle reported, so any
 // read behind the bundle aborts under ASan.  append_bundle is a static function of
-// subtree-serialize.cpp: that file is #included here (and excluded from the link).
+// subtree-serialize.cpp: that file is #included here (and excluded from the link).  If the tree
+// has no function of that name and shape any more, the harness still compiles: the call below
+// then resolves to the `...` fallback and the `A` ops print `no-append-bundle` (the property
+// module does not generate them in that case and says so in the evidence).
 #include "bundle_common.h"
+struct NoAppend {};
+static NoAppend append_bundle(...) { return NoAppend(); }
 #include "subtree-serialize.cpp"
 using namespace vb;
+
+static bool picked(size_t r, size_t &out) { out = r; return true; }
+static bool picked(NoAppend, size_t &) { return false; }
 
 // decomposition of the packet of `size` bytes at `p` (inside an exact-size block)
 static std::string decomp(const char *p, size_t size, int depth) {
@@ -52,27 +60,36 @@ static std::string step(const std::string &line) {
         o << "p=" << rtosc_bundle_p(x.c());
         return o.str();
     }
-    if (w[0] == "C") {                            // compose + decompose
+    bool use_arena = w[0] == "Cr" || w[0] == "Ar";
+    struct ArenaScope {
+        bool on;
+        explicit ArenaScope(bool o) : on(o) { if (on) { arena().reset(); arena().on = true; } }
+        ~ArenaScope() { arena().on = false; }
+    } scope(use_arena);
+    if (w[0] == "C" || w[0] == "Cr") {            // compose + decompose
         size_t i = 1;
         Node n;
         if (!parse_node(w, i, n) || i != w.size() || !n.is_bundle) return "bad-op";
+        if (use_arena) run_decoy(n);
         size_t ret = 0;
         std::unique_ptr<Block> dst = build(n, &ret);
         std::ostringstream o;
         if (ret > n.cap) { o << "r=" << ret << " ret-exceeds-len"; return o.str(); }
-        // observable: the whole block after a failed call, the `ret` bytes written after a successful one
-        o << "r=" << ret << " b=" << (ret == 0 ? hexz(dst->p, n.cap) : hex(dst->p, ret));
+        // observable: the `ret` bytes written (what the block holds after a failed call is C02's business)
+        if (ret == 0) return "r=0";
+        o << "r=" << ret << " b=" << hex(dst->p, ret);
         if (ret >= 16) {
             o << readers(dst->p, ret);
             if (n.cap >= ret + 4) o << " nz=" << rtosc_bundle_elements(dst->c(), n.cap);
         }
         return o.str();
     }
-    if (w[0] == "A" && w.size() >= 3) {           // append_bundle, the way subtree_serialize uses it
+    if ((w[0] == "A" || w[0] == "Ar") && w.size() >= 3) {   // append_bundle, the way subtree_serialize uses it
         size_t max_len = (size_t)atoll(w[1].c_str());
         size_t i = 2;
         Node n;
         if (!parse_node(w, i, n) || !n.is_bundle) return "bad-op";
+        if (use_arena) run_decoy(n);
         size_t len = 0;
         std::unique_ptr<Block> dst = build(n, &len);
         std::ostringstream o;
@@ -82,13 +99,15 @@ static std::string step(const std::string &line) {
             bytes m;
             if (w[i].empty() || w[i][0] != 'm' || !unhex(w[i].substr(1), m)) return "bad-op";
             Block src(m);
-            len = append_bundle(dst->c(), src.c(), max_len, len, m.size());
+            if (!picked(append_bundle(dst->c(), (const char *)src.c(), max_len, len, m.size()), len))
+                return "no-append-bundle";
             o << (first ? "" : ",") << len;
             first = false;
         }
         if (first) o << "-";
         if (len > n.cap) return o.str() + " ret-exceeds-len";
-        o << " b=" << (len == 0 ? hexz(dst->p, n.cap) : hex(dst->p, len));
+        if (len == 0) return o.str();
+        o << " b=" << hex(dst->p, len);
         if (len >= 16) o << readers(dst->p, len);
         return o.str();
     }
